@@ -64,4 +64,9 @@ example : ((R.run (R.init .rr false)
     [.update ["a"], .park 1, .park 2, .setUp "a" true, .checkDone "a" ["a"], .park 3, .close, .park 4]).map
       (fun s => (s.waiters, s.released))) = some ([], [1, 2, 3, 4]) := by decide
 
+/-- A probe of a dead target holds up nobody: in the source read on this run check() pings before it
+    takes the client lock, so R's `checkDone` (the critical section after the ping) is all that
+    routing, time-outs and Close ever wait for — however long a black-holed target lets the probe hang. -/
+theorem C18_probe_outside_the_lock : Gen.checkProbesOutsideLock = true := by decide
+
 end RpcVerif.Props
